@@ -33,6 +33,8 @@ def bitop(op):
         return "(OpI32 %s)" % op[4:]
     if op.startswith("k"):
         return "(OpSkip %s)" % op[1:]
+    if op.startswith("R"):
+        return "(OpReader %s)" % op[1:]
     raise ValueError(op)
 
 
